@@ -202,7 +202,7 @@ struct H {
     static const char *name() { return "C16 allocation lifetimes"; }
     static rc::Gen<Case> gen() {
         using namespace rc;
-        return gen::map(gen::tuple(gen::resize(300, gen::container<std::vector<uint8_t>>(gen::arbitrary<uint8_t>())), pbt::pick<int>({1, 1, 2, 4}), pbt::pick<int>({0, 1, 1})),
+        return gen::map(gen::tuple(gen::resize(300, gen::container<std::vector<uint8_t>>(gen::arbitrary<uint8_t>())), pbt::pick<int>({1, 1, 2, 4, 3}), pbt::pick<int>({0, 1, 1})),
                         [](std::tuple<std::vector<uint8_t>, int, int> t) {
                             Case c;
                             c.bytes = std::get<0>(t);
@@ -214,7 +214,7 @@ struct H {
     // coverage-guided mode: selector byte, then entropy
     static bool from_fuzz(const uint8_t *d, size_t n, Case &c) {
         pbt::FuzzBytes f(d, n);
-        static const int w[] = {1, 2, 4, 1};
+        static const int w[] = {1, 2, 4, 3};
         const uint8_t sel = f.sel();
         c.width = w[sel & 3];
         c.gen2  = (sel >> 2) & 1;
@@ -252,6 +252,7 @@ struct H {
             switch (c.width) {
                 case 1: run_width<char>(c, ctx, fl, trace); break;
                 case 2: run_width<char16_t>(c, ctx, fl, trace); break;
+                case 3: run_width<wchar_t>(c, ctx, fl, trace); break;
                 default: run_width<char32_t>(c, ctx, fl, trace); break;
             }
         } catch (pbt::Failure &f) {
